@@ -89,7 +89,7 @@ func init() {
 				}
 			}()
 			pcsp, up, smi, args, locals := loader.VerifLoadTables(a[0] == "1", item)
-			parts = []string{hexArg(pcsp), hexArg(up), hexArg(smi), hexOrNil(args), hexOrNil(locals)}
+			parts = []string{hexArg(pcsp), hexOrNil(up), hexArg(smi), hexOrNil(args), hexOrNil(locals)}
 		}()
 		if parts == nil {
 			// MarshalBinary of the pc-sp table panicked (descending pcs)
